@@ -448,6 +448,8 @@ pub struct Outcome {
     pub misses: u64,
     pub errors: u64,
     pub changed_answers: u64,
+    pub caught_panics: u64,
+    pub direct_images: u64,
     pub by_class: BTreeMap<String, u64>,
     pub hashes: BTreeSet<u64>,
     pub every_page: bool,
@@ -458,7 +460,9 @@ pub struct Outcome {
     pub live: LiveOutcome,
 }
 
-async fn read_back(cfg: &HCfg, dir: &std::path::Path, keys: u64) -> Result<(Vec<(u64, Seen)>, usize), String> {
+/// `direct`: look the keys up through `Store::load` (the disk tier's own entry point: a panic in the loader
+/// propagates to the caller) instead of `HybridCache::get` (the loader runs in a fetch task).
+async fn read_back(cfg: &HCfg, dir: &std::path::Path, keys: u64, direct: bool) -> Result<(Vec<(u64, Seen)>, usize), String> {
     let cfg = cfg.clone();
     let path = dir.to_path_buf();
     let h = tokio::spawn(async move {
@@ -467,6 +471,20 @@ async fn read_back(cfg: &HCfg, dir: &std::path::Path, keys: u64) -> Result<(Vec<
         let cache = hyb::open(&cfg, &path, &ctl, RecoverMode::Quiet).await.map_err(|e| format!("reopen failed in quiet mode: {e}"))?;
         let mut out = vec![];
         for k in 0..keys {
+            if direct {
+                let seen = match cache.storage().load(&k).await {
+                    Ok(foyer::Load::Entry { key, value, .. }) => match crate::value::parse(&value) {
+                        Ok(s) if key == k => Seen::Hit(s),
+                        Ok(s) => Seen::Corrupt(format!("entry of key {key} ({s:?}) returned for key {k}")),
+                        Err(b) => Seen::Corrupt(format!("{b:?}")),
+                    },
+                    Ok(foyer::Load::Piece { .. }) => Seen::Corrupt("piece from an empty write queue".into()),
+                    Ok(foyer::Load::Miss) | Ok(foyer::Load::Throttled) => Seen::Miss,
+                    Err(e) => Seen::Error(format!("{:?}", e.kind())),
+                };
+                out.push((k, seen));
+                continue;
+            }
             let r = cache.get(&k).await;
             out.push((k, hyb::see(k, r)));
         }
@@ -504,7 +522,7 @@ pub fn run_plan(plan: &Plan, tier: &str, only: Option<Vec<Fault>>) -> Outcome {
     let dir = DirGuard(hyb::scratch_dir("c03img"));
     b.base.write_to(&dir.0);
     // reference answers on the unfaulted image
-    let reference: BTreeMap<u64, Seen> = match crate::with_rt(2, read_back(cfg, &dir.0, plan.keys)) {
+    let reference: BTreeMap<u64, Seen> = match crate::with_rt(2, read_back(cfg, &dir.0, plan.keys, false)) {
         Ok((r, w)) => {
             if w > 0 {
                 b.base.write_to(&dir.0);
@@ -521,7 +539,8 @@ pub fn run_plan(plan: &Plan, tier: &str, only: Option<Vec<Fault>>) -> Outcome {
             out.problems.push((format!("{sig}:unfaulted"), d, json!({})));
         }
     }
-    for faults in &cases {
+    for (case_no, faults) in cases.iter().enumerate() {
+        let direct = case_no % 2 == 1;
         let img = apply_faults(&b.base, &b.writes, faults);
         let touched: BTreeSet<u32> = faults.iter().flat_map(|f| f.partitions()).collect();
         let mut changed = false;
@@ -536,7 +555,12 @@ pub fn run_plan(plan: &Plan, tier: &str, only: Option<Vec<Fault>>) -> Outcome {
         }
         let class = if faults.len() == 1 { faults[0].class() } else { format!("multi-fault-set({})", faults.len()) };
         crate::progress(&json!({"check":"c03","mode":"image","class":class,"faults":faults,"plan":plan}));
-        let r = crate::with_rt(2, read_back(cfg, &dir.0, plan.keys));
+        let panics_before = crate::panic_count();
+        let r = crate::with_rt(2, read_back(cfg, &dir.0, plan.keys, direct));
+        out.caught_panics += crate::panic_count() - panics_before;
+        if direct {
+            out.direct_images += 1;
+        }
         // restore
         let wrote = matches!(&r, Ok((_, w)) if *w > 0) || r.is_err();
         if wrote {
@@ -615,6 +639,8 @@ fn absorb(res: &mut ShardResult, plan: &Plan, o: Outcome) {
     res.count("lookup_misses", o.misses);
     res.count("lookup_errors", o.errors);
     res.count("faulted_images_changing_an_answer", o.changed_answers);
+    res.count("faulted_images_read_through_store_load", o.direct_images);
+    res.count("panics_observed_by_the_panic_hook", o.caught_panics);
     res.count("image_pages", o.pages);
     res.count("image_entries_parsed", o.entries);
     res.count("live_read_fault_lookups", o.live.lookups);
